@@ -395,8 +395,92 @@ def probe_shared_ingredients(seed, n):
     return cases, fails
 
 
+def probe_threads_async_facade(seed, cases=3):
+    """Two unrelated machines with coroutine callbacks, each driven from synchronous code in a thread of its own. While
+    a callback of the first is still running (it waits until it sees the second machine move), the second machine's
+    event is processed: driving one instance never holds up another. Direct Spec on the implementation."""
+    import asyncio
+    import random
+    import threading
+    import time
+    import warnings
+    from statemachine import State, StateMachine
+    fails = []
+    for k in range(cases):
+        rng = random.Random(f"{seed}:threads-async:{k}")
+        same_class = rng.random() < 0.5
+        started = threading.Event()
+        box = {"moved": False, "saw": None, "b_took": None, "errors": []}
+
+        def mk(name, waiter):
+            async def on_go(self):
+                if self.role == "waiter":
+                    started.set()
+                    for _ in range(400):
+                        if box["moved"]:
+                            break
+                        await asyncio.sleep(0.01)
+                    box["saw"] = box["moved"]
+                else:
+                    await asyncio.sleep(0)
+                    box["moved"] = True
+                return self.role
+            ns = dict(a=State(initial=True), b=State())
+            ns["go"] = ns["a"].to(ns["b"])
+            ns["back"] = ns["b"].to(ns["a"])
+            ns["on_go"] = on_go
+            ns["role"] = waiter
+            return type(StateMachine)(name, (StateMachine,), ns)
+        with warnings.catch_warnings():
+            warnings.simplefilter("ignore")
+            A = mk("Waits", "waiter")
+            B = A if same_class else mk("Moves", "mover")
+            sa, sb = A(), B()
+            if same_class:
+                sb.role = "mover"
+
+        def t1():
+            try:
+                sa.send("go")
+            except Exception as e:  # noqa: BLE001
+                box["errors"].append(f"waiter: {type(e).__name__}: {e}")
+
+        def t2():
+            try:
+                if not started.wait(10):
+                    box["errors"].append("the first machine's callback never started")
+                    return
+                t = time.time()
+                sb.send("go")
+                box["b_took"] = time.time() - t
+            except Exception as e:  # noqa: BLE001
+                box["errors"].append(f"mover: {type(e).__name__}: {e}")
+        th = [threading.Thread(target=t1, daemon=True), threading.Thread(target=t2, daemon=True)]
+        for x in th:
+            x.start()
+        for x in th:
+            x.join(30)
+        what = f"case {k} ({'instances of one class' if same_class else 'two classes'})"
+        if any(x.is_alive() for x in th):
+            fails.append(f"{what}: the two senders did not come back within 30 s (each machine waits for the other)")
+            continue
+        if box["errors"]:
+            fails.append(f"{what}: {box['errors'][0]}")
+            continue
+        if box["saw"] is not True:
+            fails.append(f"{what}: while a callback of the first machine was running (4 s), the event sent to the second "
+                         f"machine from another thread was not processed (its send took {box['b_took']:.2f} s)")
+        if sa.current_state.id != "b" or sb.current_state.id != "b":
+            fails.append(f"{what}: final states {sa.current_state.id!r}, {sb.current_state.id!r}")
+    return fails
+
+
 def run(ctx):
     lean_obligations(ctx)
+    tf = safe_probe(probe_threads_async_facade, ctx.seed)
+    ctx.coverage["threads_async_facade_cases"] = 3
+    if tf:
+        ctx.violation(ctx.write_replay("threads_async_facade.txt", "\n".join(tf) + "\n"), tf[0][:200])
     ncases, sf = safe_probe(probe_shared_ingredients, ctx.seed, 60 if ctx.tier == "quick" else 1200, pair=True)
     ctx.coverage["shared_ingredients_cases"] = ncases
     if sf:
